@@ -69,12 +69,51 @@ KF_C13_1 == /\ "KF-C13-1" \in KnownDeviations
             /\ UNCHANGED <<exp, strict, phase, rep, buf, scn>>
             /\ Consume /\ UseDeviation("KF-C13-1")
 
+(* Known finding KF-C13-2 (only if listed): usage that the backend sends in a chunk whose "choices" is  *)
+(* empty (the OpenAI stream_options.include_usage form) is dropped -- processStreamLine returns on    *)
+(* empty choices before it looks at "usage" -- so message_delta reports 0/0.  The deviation explains   *)
+(* exactly that report for exactly such a completion; it is read as if the usage had been passed on.   *)
+KF2Usage == /\ "KF-C13-2" \in KnownDeviations /\ scn.usagePos = "nochoices" /\ exp.hasU
+            /\ E.hasUin /\ E.uin = 0 /\ E.uout = 0
+KF_C13_2 == /\ IsOut("message_delta") /\ KF2Usage
+            /\ MessageDelta(E.stop, exp.uin, exp.uout)
+            /\ Consume /\ UseDeviation("KF-C13-2")
+
+(* Known finding KF-C13-3 (only if listed): a delta that carries BOTH text content and the first chunk *)
+(* of a tool call (id + name) -- processStreamLine handles the content and returns without looking at  *)
+(* tool_calls -- loses that tool call: it is never announced, later argument fragments of it are sent  *)
+(* as input_json_delta into the open TEXT block, and the message ends without it.  The deviation       *)
+(* explains exactly that, only for completions rendered that way (scn.both): (a) an input_json_delta   *)
+(* for the open text block is skipped, (b) message_delta is accepted when all text and every tool call *)
+(* that does NOT directly follow a text item are intact; from there on the message is read as complete.*)
+Dropped3 == {j \in 2..Len(exp.items) : exp.items[j].k = "tool" /\ exp.items[j - 1].k = "text"}
+Surv3    == LET ix == SelectSeq([j \in 1..Len(exp.items) |-> j], LAMBDA j : j \notin Dropped3)
+            IN  [n \in 1..Len(ix) |-> exp.items[ix[n]]]
+KF_C13_3a == /\ "KF-C13-3" \in KnownDeviations
+             /\ IsOut("content_block_delta") /\ scn.both /\ E.dk = "tool"
+             /\ phase = "block" /\ E.idx = open /\ blocks[Len(blocks)].k = "text"
+             /\ hist' = Append(hist, Ev("content_block_delta", E.idx))
+             /\ UNCHANGED <<exp, strict, phase, nextIdx, open, blocks, rep, buf, scn>>
+             /\ Consume /\ UseDeviation("KF-C13-3")
+KF_C13_3b == /\ "KF-C13-3" \in KnownDeviations
+             /\ IsOut("message_delta") /\ scn.both /\ Dropped3 # {} /\ phase = "msg"
+             /\ Summary(blocks) = Summary(Surv3)
+             /\ StopOK(E.stop) /\ E.hasUin
+             /\ \/ UsageOK(E.uin, E.uout) /\ rep' = [stop |-> E.stop, uin |-> E.uin, uout |-> E.uout]
+                \/ KF2Usage /\ rep' = [stop |-> E.stop, uin |-> exp.uin, uout |-> exp.uout]   \* both findings at once
+                             /\ UseDeviation("KF-C13-2")
+             /\ blocks' = exp.items /\ nextIdx' = Len(exp.items)
+             /\ phase' = "closing" /\ hist' = Append(hist, Ev("message_delta", 0))
+             /\ UNCHANGED <<exp, strict, open, buf, scn>>
+             /\ Consume /\ UseDeviation("KF-C13-3")
+
 TraceInit == /\ exp = [items |-> <<>>, fin |-> "none", hasU |-> FALSE, uin |-> 0, uout |-> 0]
              /\ strict = FALSE /\ phase = "init" /\ nextIdx = 0 /\ open = 0 /\ blocks = <<>>
-             /\ rep = NoRep /\ buf = NoBuf /\ hist = <<>> /\ scn = <<>> /\ l = 1
+             /\ rep = NoRep /\ buf = NoBuf /\ hist = <<>>
+             /\ scn = [usagePos |-> "none", both |-> FALSE] /\ l = 1
 TraceNext == \/ TReset \/ TBuffered \/ TMessageStart \/ TBlockStart \/ TDelta \/ TBlockStop
              \/ TMessageDelta \/ TMessageStop \/ TPing \/ TEnd \/ TLax
-             \/ KF_C13_1
+             \/ KF_C13_1 \/ KF_C13_2 \/ KF_C13_3a \/ KF_C13_3b
 TraceSpec == TraceInit /\ [][TraceNext]_tvars
 HW == HWMark(l)
 =============================================================================
